@@ -131,6 +131,12 @@ class Printer(BasePrinter):
 
         Returns the name used for printing the value.
         """
+        name = self._get_ssa_name(value)
+        self.print_string(f"%{name}")
+        return name
+
+    def _get_ssa_name(self, value: SSAValue) -> str:
+        """Fetch the name of an SSA value, assigning one in the current scope if needed."""
         if value in self._ssa_values:
             name = self._ssa_values[value]
         elif value.name_hint:
@@ -142,8 +148,6 @@ class Printer(BasePrinter):
         else:
             name = self._get_new_valid_name_id()
             self._ssa_values[value] = name
-
-        self.print_string(f"%{name}")
         return name
 
     def print_operand(self, operand: SSAValue) -> None:
@@ -593,6 +597,10 @@ class Printer(BasePrinter):
         begin_op_pos = self._current_column
         self._print_results(op)
         if scope:
+            # The operands are values of the enclosing scope: name them there, a name
+            # taken inside the new scope could be handed out again after it is closed.
+            for operand in op.operands:
+                self._get_ssa_name(operand)
             self.enter_scope()
         use_custom_format = False
         if isinstance(op, UnregisteredOp):
